@@ -100,31 +100,39 @@ theorem swapG_onto {g : Geom} {a b : Int} {r : GStep} (h : swapG g a b = .ok r) 
   obtain ⟨p, _, h⟩ := bind_ok.mp h
   exact permuteG_onto h
 
-theorem padFullG_onto (sz : AxMap → Int) (hsz : SzOk sz) (g : Geom) {full : FullPad}
-    (hf : 0 ≤ full.1.1 ∧ 0 ≤ full.1.2 ∧ 0 ≤ full.2.1.1 ∧ 0 ≤ full.2.1.2 ∧ 0 ≤ full.2.2.1 ∧ 0 ≤ full.2.2.2) :
-    Onto g (padFullG sz g full) := by
+theorem padFullG_onto (sz : AxMap → Int) (hsz : SzOk sz) (g : Geom) {full : FullPad} {r : GStep}
+    (hf : 0 ≤ full.1.1 ∧ 0 ≤ full.1.2 ∧ 0 ≤ full.2.1.1 ∧ 0 ≤ full.2.1.2 ∧ 0 ≤ full.2.2.1 ∧ 0 ≤ full.2.2.2)
+    (h : padFullG sz g full = .ok r) : Onto g r := by
   obtain ⟨f0, f1, f2, f3, f4, f5⟩ := hf
+  simp only [padFullG] at h
+  obtain ⟨m0, e0, h⟩ := bind_ok.mp h
+  obtain ⟨m1, e1, h⟩ := bind_ok.mp h
+  obtain ⟨m2, e2, h⟩ := bind_ok.mp h
+  simp only [pure, Except.pure, Except.ok.injEq] at h
+  subst h
+  rw [padAxis_ok e0, padAxis_ok e1, padAxis_ok e2]
   intro i hi
   rw [inRange_iff] at hi
   obtain ⟨⟨a0, a1⟩, ⟨b0, b1⟩, ⟨c0, c1⟩⟩ := hi
   refine ⟨⟨i.i0 + full.1.1, i.i1 + full.2.1.1, i.i2 + full.2.2.1⟩, ?_, ?_⟩
   · rw [inRange_iff]
-    have s0 : sz (padAxis g.n0 full.1.1 full.1.2) = g.n0 + full.1.1 + full.1.2 := hsz _ rfl
-    have s1 : sz (padAxis g.n1 full.2.1.1 full.2.1.2) = g.n1 + full.2.1.1 + full.2.1.2 := hsz _ rfl
-    have s2 : sz (padAxis g.n2 full.2.2.1 full.2.2.2) = g.n2 + full.2.2.1 + full.2.2.2 := hsz _ rfl
-    simp only [padFullG, Geom.remap, s0, s1, s2]
+    have s0 : sz ⟨-full.1.1, 1, g.n0 + full.1.1 + full.1.2, g.n0 + full.1.1 + full.1.2, -full.1.1, 1⟩
+        = g.n0 + full.1.1 + full.1.2 := hsz _ rfl
+    have s1 : sz ⟨-full.2.1.1, 1, g.n1 + full.2.1.1 + full.2.1.2, g.n1 + full.2.1.1 + full.2.1.2, -full.2.1.1, 1⟩
+        = g.n1 + full.2.1.1 + full.2.1.2 := hsz _ rfl
+    have s2 : sz ⟨-full.2.2.1, 1, g.n2 + full.2.2.1 + full.2.2.2, g.n2 + full.2.2.1 + full.2.2.2, -full.2.2.1, 1⟩
+        = g.n2 + full.2.2.1 + full.2.2.2 := hsz _ rfl
+    simp only [Geom.remap, s0, s1, s2]
     omega
   · cases i
-    simp only [padFullG, remapSrc, padAxis, I3.mk.injEq]
+    simp only [remapSrc, I3.mk.injEq]
     omega
 
 theorem padG_onto (sz : AxMap → Int) (hsz : SzOk sz) {g : Geom} {w : PadWidth} {r : GStep}
     (h : padG sz g w = .ok r) : Onto g r := by
   simp only [padG] at h
   obtain ⟨full, hf, h⟩ := bind_ok.mp h
-  simp only [pure, Except.pure, Except.ok.injEq] at h
-  subst h
-  exact padFullG_onto sz hsz g (fullPadWidth_nonneg hf)
+  exact padFullG_onto sz hsz g (fullPadWidth_nonneg hf) h
 
 theorem padToG_onto (sz : AxMap → Int) (hsz : SzOk sz) {g : Geom} {s : List Int} {r : GStep}
     (h : padToG sz g s = .ok r) : Onto g r := by
